@@ -182,3 +182,55 @@ def has_dollar_anchor(pattern, flags=0):
                 return True
         return False
     return walk(list(tree))
+
+
+def nested_unbounded(pattern, flags=0):
+    """an unbounded repetition whose body has an alternative that is itself, as a whole, an unbounded repetition -- `(a+)*`,
+    `(?:[^"\\]+|\\.)*`: the same input can be cut into iterations in exponentially many ways, and a backtracking matcher
+    tries them all when the rest of the pattern fails (catastrophic backtracking).  Returns a description or None."""
+    if isinstance(pattern, bytes):
+        pattern = pattern.decode("latin-1")
+    try:
+        tree = sre_parse.parse(pattern, flags)
+    except Exception:
+        return None
+    MAXR = sre_c.MAXREPEAT
+
+    def alts(items):
+        items = list(items)
+        while len(items) == 1 and items[0][0] is sre_c.SUBPATTERN:
+            items = list(items[0][1][-1])
+        if len(items) == 1 and items[0][0] is sre_c.BRANCH:
+            out = []
+            for b in items[0][1][1]:
+                out += alts(b)
+            return out
+        return [items]
+
+    def walk(items):
+        for op, av in items:
+            if op in (sre_c.MAX_REPEAT, sre_c.MIN_REPEAT):
+                lo, hi, body = av
+                if hi == MAXR:
+                    for a in alts(body):
+                        if len(a) == 1 and a[0][0] in (sre_c.MAX_REPEAT, sre_c.MIN_REPEAT) and a[0][1][1] == MAXR:
+                            return "an unbounded repetition of an alternative that is itself an unbounded repetition"
+                r = walk(list(body))
+                if r:
+                    return r
+            elif op is sre_c.SUBPATTERN:
+                r = walk(list(av[-1]))
+                if r:
+                    return r
+            elif op is sre_c.BRANCH:
+                for b in av[1]:
+                    r = walk(list(b))
+                    if r:
+                        return r
+            elif str(op) in ("ASSERT", "ASSERT_NOT"):
+                r = walk(list(av[1]))
+                if r:
+                    return r
+        return None
+    return walk(list(tree))
+
